@@ -12,6 +12,8 @@ CAP_THOROUGH = 1500
 def corpus(ctx):
     rng = ctx.rng('proc')
     gs = [gen_graph.theory_example()] + gen_cons.linked_dv_graphs()
+    # choice constraints over permanent members next to unrelated choices (the other placements belong to C13's corpus)
+    gs += [g for g in gen_cons.family(True) if any(f in ('place_permanent_and_independent', 'place_permanent_and_conditional') for f in g['feat'])]
     if ctx.quick:
         fam = list(gen_graph.exhaustive_family(4, max_inc=1))
         gs += [g for i, g in enumerate(fam) if i % 3 == ctx.seed % 3]
